@@ -64,9 +64,11 @@ class Parser:
         self.branches = []
         self.rings = {}
         self.bond_order = None
+        self.is_default_bond = True
         self.is_its = False
 
-    def __set_bond_order(self, value):
+    def __set_bond_order(self, value, is_default=False):
+        self.is_default_bond = is_default
         if self.is_its and not isinstance(value, tuple) and value != 0:
             self.bond_order = (value, value)
         else:
@@ -103,12 +105,12 @@ class Parser:
         self.graph.add_node(idx, **node_attributes)
         if self.anchor is not None:
             anchor_sym = self.graph.nodes[self.anchor][SYMBOL_KEY]
-            if self.bond_order == 1 and anchor_sym.islower() and value.islower():
+            if self.is_default_bond and anchor_sym.islower() and value.islower():
                 self.__set_bond_order(1.5)
             if self.bond_order != 0:
                 edge_attributes = {BOND_KEY: self.bond_order}
                 self.graph.add_edge(self.anchor, idx, **edge_attributes)
-            self.__set_bond_order(1)
+            self.__set_bond_order(1, is_default=True)
         self.anchor = idx
 
     def __process_token_rc_bond(self, value):
@@ -126,12 +128,17 @@ class Parser:
         if value in self.rings.keys():
             anchor_sym = self.graph.nodes[self.anchor][SYMBOL_KEY]
             ring_anchor = self.rings[value]
-            if anchor_sym.islower():
+            ring_anchor_sym = self.graph.nodes[ring_anchor][SYMBOL_KEY]
+            if (
+                self.is_default_bond
+                and anchor_sym.islower()
+                and ring_anchor_sym.islower()
+            ):
                 self.__set_bond_order(1.5)
             if self.bond_order != 0:
                 edge_attributes = {BOND_KEY: self.bond_order}
                 self.graph.add_edge(self.anchor, ring_anchor, **edge_attributes)
-            self.__set_bond_order(1)
+            self.__set_bond_order(1, is_default=True)
             del self.rings[value]
         else:
             if self.anchor is None:
@@ -172,7 +179,7 @@ class Parser:
         tokens = list(tokenize(pattern))
         if "RC_BOND" in [t for t, _, _ in tokens]:
             self.is_its = True
-        self.__set_bond_order(1)
+        self.__set_bond_order(1, is_default=True)
         assert self.bond_order is not None
         for ttype, value, col in tokens:
             self.__print_process_token(ttype, value)
